@@ -64,7 +64,8 @@ def parse_sgrid(ds):
 
     sgrid_ax_names = sgrid.get_all_axes(ds)
     parsed_coords = {}
-    for ax_name in sgrid_ax_names:
+    # fixed order, so that the axes of the Grid do not depend on set iteration order
+    for ax_name in [ax for ax in ("X", "Y", "Z") if ax in sgrid_ax_names]:
         parsed_coords[ax_name] = sgrid.get_axis_positions_and_coords(ds, ax_name)
 
     sgrid_grid_kwargs = {"coords": parsed_coords}
@@ -90,7 +91,10 @@ def parse_comodo(ds):
 
     comodo_ax_names = comodo.get_all_axes(ds)
     parsed_coords = {}
-    for ax_name in comodo_ax_names:
+    # order of first appearance in the dataset, so that the axes of the Grid do not
+    # depend on set iteration order
+    axes_in_dataset_order = dict.fromkeys(ds[d].attrs.get("axis") for d in ds.dims)
+    for ax_name in [ax for ax in axes_in_dataset_order if ax in comodo_ax_names]:
         parsed_coords[ax_name] = comodo.get_axis_positions_and_coords(ds, ax_name)
 
     comodo_grid_kwargs = {"coords": parsed_coords}
